@@ -468,9 +468,10 @@ func init() {
 			{Kind: "auth-inproc", Name: "IN:auth-wrappers"},
 			{Kind: "auth-binary", Name: "IN:auth-real-binary", BudgetS: 240},
 			{Kind: "auth-conc", Name: "S2:auth-vs-reregistration", BudgetS: 300},
+			{Kind: "auth-conc", Name: "S2:auth-vs-reregistration+race", BudgetS: 300, Race: true},
 		}
 	}, check.PropInfo{
-		Rule:        "token alphabet = one valid token and every mutation class (each segment emptied / truncated / one character changed / taken from another token; alg HS256/384/512/none/None/RS256-header/missing; signed with the current, previous, empty, wrong or truncated secret; exp past/now/future/absent; iat and nbf in the future) x three carriers singly and in all 27 absent/valid/invalid combinations x an explicit-state machine over the server's secret (every sequence <= 3 of register-A / register-B / unregister), on (1) the two exported wrappers mounted as cmd/main.go mounts them around a harness-owned inner handler, in-process, and (2) the real binary built from /repo/cmd, registered by a harness-owned discovery service on loopback (unregistered -> secret 1 -> lapsed -> secret 2), and (3) S2: one or two requests handled while the discovery client re-registers (secret A -> none -> B, or none -> A) in another thread, every interleaving at the granularity of the lock around the secret (hagall-common/hdsclient instrumented): admitted => the token verifies under a non-empty secret the server held at some instant of the call. Oracle: an independent verifier (crypto/hmac, base64, JSON); inner handler entered => a carried token verifies under the current secret and is within its times; a lone valid token is admitted; a rejection is 401/403.",
+		Rule:        "token alphabet = one valid token and every mutation class (each segment emptied / truncated / one character changed / taken from another token; alg HS256/384/512/none/None/RS256-header/missing; signed with the current, previous, empty, wrong or truncated secret; exp past/now/future/absent; iat and nbf in the future) x three carriers singly and in all 27 absent/valid/invalid combinations x an explicit-state machine over the server's secret (every sequence <= 3 of register-A / register-B / unregister), on (1) the two exported wrappers mounted as cmd/main.go mounts them around a harness-owned inner handler, in-process, and (2) the real binary built from /repo/cmd, registered by a harness-owned discovery service on loopback (unregistered -> secret 1 -> lapsed -> secret 2), and (3) S2: one or two requests handled while the discovery client re-registers (secret A -> none -> B, or none -> A) in another thread, or while a second request with a valid token is checked by the same wrapper, every interleaving at the granularity of the lock around the secret, in the plain and in the -race build (the wrappers are built once and shared, as cmd/main.go does) (hagall-common/hdsclient instrumented): admitted => the token verifies under a non-empty secret the server held at some instant of the call. Oracle: an independent verifier (crypto/hmac, base64, JSON); inner handler entered => a carried token verifies under the current secret and is within its times; a lone valid token is admitted; a rejection is 401/403.",
 		Assumptions: []string{"loopback TCP only", "cases the statement leaves open are accepted either way: HS384/HS512 with the right secret, exp/iat/nbf within 2 s of now, iat within the 10 s leeway, a token without exp", "with several carriers present: admitted => some carried token is valid; all invalid => rejected"},
 	})
 }
@@ -703,7 +704,10 @@ func runAuthConc(j *check.Job) *check.Result {
 		{"A->none->B", secA, []string{"", secB}},
 		{"none->A", "", []string{secA}},
 		{"A->none", secA, []string{""}},
+		{"A, a second request with a valid token", secA, nil},
 	}
+	rw := newRaceWatch()
+	raceSeen := map[string]bool{}
 	var deadline time.Time
 	if j.BudgetS > 0 {
 		deadline = time.Now().Add(time.Duration(j.BudgetS) * time.Second)
@@ -722,7 +726,30 @@ func runAuthConc(j *check.Job) *check.Result {
 					client.SetServerData("id", sc.initial)
 					held := []string{sc.initial}
 					var viol []explore.Violation
-					admitted := false
+					admitted, admitted2 := false, false
+					// the wrappers are built once, as cmd/main.go does, and shared by all requests
+					handshake := hagallhttp.VerifyAuthToken(context.Background(), client)
+					var enteredBy [2]bool // which request reached the inner handler (marked by a header of the harness)
+					middleware := hagallhttp.VerifyAuthTokenHandler(client, func(_ http.ResponseWriter, r *http.Request) {
+						if r.Header.Get("X-Harness-Request") == "2" {
+							enteredBy[1] = true
+						} else {
+							enteredBy[0] = true
+						}
+					})
+					if sc.sets == nil {
+						s.Spawn("request-2", func() {
+							req := httptest.NewRequest("GET", "http://hagall.test/", nil)
+							req.Header.Set("Authorization", "Bearer "+tokens[0].Token)
+							if entry == "handshake" {
+								admitted2 = handshake(nil, req) == nil
+							} else {
+								req.Header.Set("X-Harness-Request", "2")
+								middleware(httptest.NewRecorder(), req)
+								admitted2 = enteredBy[1]
+							}
+						})
+					}
 					s.Spawn("registration", func() {
 						for _, sec := range sc.sets {
 							id := "id"
@@ -736,10 +763,11 @@ func runAuthConc(j *check.Job) *check.Result {
 						req := httptest.NewRequest("GET", "http://hagall.test/", nil)
 						req.Header.Set("Authorization", "Bearer "+t1.Token)
 						if entry == "handshake" {
-							admitted = hagallhttp.VerifyAuthToken(context.Background(), client)(nil, req) == nil
+							admitted = handshake(nil, req) == nil
 						} else {
-							rec := httptest.NewRecorder()
-							hagallhttp.VerifyAuthTokenHandler(client, func(http.ResponseWriter, *http.Request) { admitted = true })(rec, req)
+							req.Header.Set("X-Harness-Request", "1")
+							middleware(httptest.NewRecorder(), req)
+							admitted = enteredBy[0]
 						}
 					})
 					held = append(held, sc.sets...)
@@ -754,6 +782,15 @@ func runAuthConc(j *check.Job) *check.Result {
 					for _, sec := range held {
 						if v := refVerify(t1.Token, sec, now); v == valid || v == dontcare {
 							ok = true
+						}
+					}
+					if sc.sets == nil && !admitted2 {
+						viol = append(viol, explore.Violation{Oracle: "admission", Detail: "valid-token-rejected-next-to-another-request", Info: fmt.Sprintf("a request with a valid token on %s was refused while a request carrying %s was being checked by the same wrapper", entry, t1.Name)})
+					}
+					for _, r := range rw.fresh() {
+						if !raceSeen[r.Sig] {
+							raceSeen[r.Sig] = true
+							viol = append(viol, explore.Violation{Oracle: "race", Detail: r.Sig, Info: "unsynchronised conflicting accesses between two requests passing the token check (Go race detector, happens-before):\n" + r.Text})
 						}
 					}
 					if admitted && !ok {
